@@ -137,6 +137,22 @@ class Ctx:
         finally:
             self.solver.pop()
 
+    def scope(self):
+        """Temporary hypotheses (for all-quantified clause bodies): pushed on entry, discarded on exit."""
+        import contextlib
+
+        @contextlib.contextmanager
+        def cm():
+            n = len(self.pc)
+            self.solver.push()
+            try:
+                yield
+            finally:
+                self.solver.pop()
+                del self.pc[n:]
+
+        return cm()
+
     def event(self, *ev):
         self.trace.append(ev)
 
